@@ -22,6 +22,7 @@ var vfBlocksSmall = []string{
 var vfBlocksBig = []string{
 	"fc00:a::/64", "fc00:b::/48", "fc00:c::/66", "fc00:d::/67", "10.8.0.0/16", "10.9.0.0/23", "10.10.0.128/25",
 	"10.11.0.0/25", "fc00:e::/96", "fc00:f::-fc00:f::ffff:ffff:ffff:ffff", "10.12.0.0-10.12.3.255",
+	"fd00::/8", "2001::/16", "2400::/24", // IPv6 prefixes as short as the IPv4 ones the buggy-address arithmetic is written for
 }
 
 func vfGenNamespaces() []corev1.Namespace {
